@@ -264,6 +264,11 @@ def known_findings(pid):
 
 
 # ---------------------------------------------------------------- verdict / evidence
+# seeded-change runs (tools/run_seeded.py) write their evidence elsewhere, so that the committed evidence
+# files always come from runs on the unchanged tree
+EVIDENCE = os.environ.get("VERIF_EVIDENCE_DIR") or os.path.join(VERIF, "evidence")
+
+
 class Result:
     def __init__(self, pid, tier, seed):
         self.pid, self.tier, self.seed = pid, tier, seed
@@ -274,10 +279,10 @@ class Result:
         self.assumptions = []
 
     def violation(self, record, suffix=""):
-        os.makedirs(os.path.join(VERIF, "evidence", "replay"), exist_ok=True)
+        os.makedirs(os.path.join(EVIDENCE, "replay"), exist_ok=True)
         blob = json.dumps(record, sort_keys=True, indent=1)
         h = hashlib.sha256(blob.encode()).hexdigest()[:12]
-        path = os.path.join(VERIF, "evidence", "replay", "%s-%s.json" % (self.pid, h))
+        path = os.path.join(EVIDENCE, "replay", "%s-%s.json" % (self.pid, h))
         with open(path, "w") as f:
             f.write(blob + "\n")
         self.violations.append((path, suffix))
@@ -307,8 +312,8 @@ class Result:
         ev = {"property_id": self.pid, "tier": self.tier, "seed": self.seed, "level": "proof",
               "coverage": self.coverage, "assumptions": self.assumptions,
               "wall_s": round(time.time() - self.t0, 2), "violations": len(self.violations)}
-        os.makedirs(os.path.join(VERIF, "evidence"), exist_ok=True)
-        with open(os.path.join(VERIF, "evidence", self.pid + ".json"), "w") as f:
+        os.makedirs(EVIDENCE, exist_ok=True)
+        with open(os.path.join(EVIDENCE, self.pid + ".json"), "w") as f:
             json.dump(ev, f, indent=1, sort_keys=True)
             f.write("\n")
         for fid, text in sorted(self.known_hits.items()):
